@@ -408,3 +408,104 @@ def reentry(rep, ctx):
                   "macro that mentions itself (define \"a\" @a @a) recurses until the stack overflows (abort)",
                   c.where())
     return r
+
+
+CNT = -10
+
+
+def _count_sets(ar, g, cur, memo, inprog):
+    """Set of (consumed bytes, return shape) possible at the returns of g entered with current byte `cur`, reads
+    never failing; consumed = 0, 1, 2 (two or more) or -1 (not determined by `cur`)."""
+    key = (g, cur)
+    if key in memo:
+        return memo[key]
+    if key in inprog:
+        return frozenset([(-1, ("unknown",))])
+    inprog.add(key)
+    body = ar.lib.bodies[g]
+    outs = set()
+
+    def model(c, av, envv, pe):
+        n = c.name or ""
+        cv = envv.get(CUR)
+        k = envv.get(CNT, ("i", 0))[1]
+        if is_reader_next(c):
+            if cv == EOF:
+                return (True, OK(NONE))
+            envv[CNT] = ("i", k if k < 0 else min(k + 1, 2))
+            envv.pop(CUR, None)
+            return (True, ("adt", 0, (None,)))
+        if is_reader_peek(c):
+            if cv == EOF:
+                return (True, OK(NONE))
+            return (True, OK(some(cv)) if cv is not None else ("adt", 0, (None,)))
+        if n in ar.touches and n in ar.lib.bodies and not c.is_dyn():
+            if cv is None:
+                envv[CNT] = ("i", -1)
+                return None
+            cs = _count_sets(ar, n, cv, memo, inprog)
+            counts = {x[0] for x in cs}
+            shapes = {x[1] for x in cs}
+            if len(counts) == 1 and -1 not in counts:
+                add = next(iter(counts))
+                envv[CNT] = ("i", k if k < 0 else min(k + add, 2))
+                if add:
+                    envv.pop(CUR, None)
+            else:
+                envv[CNT] = ("i", -1)
+                envv.pop(CUR, None)
+            if len(shapes) == 1:
+                return (True, ar.shape_value(next(iter(shapes))))
+            return (True, None)
+        return None
+    pe = PE(body, model, eq_ok=ar.eq_ok, max_states=30000)
+
+    def hook(bb, e, first):
+        if body.term(bb)["k"] == "return":
+            outs.add((e.get(CNT, ("i", 0))[1], ar.shape(body, e.get(0))))
+        return None
+    pe.visit_hook = hook
+    try:
+        pe.run(env={CUR: cur})
+        ans = frozenset(outs)
+    except RuntimeError:
+        ans = frozenset([(-1, ("unknown",))])
+    inprog.discard(key)
+    memo[key] = ans
+    return ans
+
+
+def resync_one_byte(rep, ctx, ar=None, rid="C06-RESYNC-ONE-BYTE"):
+    """A byte that cannot start a JSON value costs exactly one byte of input."""
+    lib = ctx.lib
+    r = rep.rule(rid, "for every byte that can neither start a JSON value nor is insignificant whitespace, "
+                 "next_json_value consumes exactly that one byte before it returns its error (no more: the next value "
+                 "must not be eaten; no less: the retry loop must advance)", floor=1,
+                 analysis="A5 partial evaluation over the abstract reader counting consumed bytes, through the helper "
+                          "functions it calls; 234 byte values")
+    ar = ar or AbstractReader(lib, ctx.cg)
+    target = None
+    for n in lib.bodies:
+        if n.endswith("::next_json_value") and "JsonParser" in n:
+            target = n
+    if target is None:
+        r.missing("next_json_value")
+        return
+    b = lib.bodies[target]
+    starts = set(b"tfn\"-0123456789[{") | {0x20, 0x09, 0x0A, 0x0D}
+    memo, inprog = {}, set()
+    wrong = []
+    for v in range(256):
+        if v in starts:
+            continue
+        cs = _count_sets(ar, target, ("i", v), memo, inprog)
+        if {x[0] for x in cs} != {1} or {x[1] for x in cs} != {("err",)}:
+            wrong.append((v, sorted((x[0], x[1][0]) for x in cs)))
+    if wrong:
+        v, cs = wrong[0]
+        r.bad("next_json_value[noise bytes]", "for the byte %s the number of bytes consumed before the error is "
+              "returned can be %s (count, outcome; 2 = two or more, -1 = not determined by that byte); expected "
+              "exactly (1, err) (%d byte value(s) affected)" % (curname(("i", v)), cs, len(wrong)), b.where())
+    else:
+        r.ok("next_json_value[noise bytes]", "each of the %d noise byte values costs exactly one byte" % (256 - len(starts)),
+             b.where())
